@@ -119,6 +119,17 @@ static const char * c01_execute(const unsigned char * stream, size_t n, const c0
     v = vh_ctx_new(c01_cmds, cfg->bufsize < 2 ? 2 : cfg->bufsize, cfg->queue_len < 1 ? 1 : cfg->queue_len, cfg->heap_len < 2 ? 2 : cfg->heap_len);
     v->sigs = c01_sigs; v->nsigs = C01_NSIG; v->log_enabled = 0;
     vh_rng_seed(&r, cfg->seg_seed, 78, 0);
+    /* the identification strings are the application's (any length, any of them NULL, any characters) */
+    if (vh_below(&r, 3) == 0) {
+        static char idn[4][140]; int f;
+        for (f = 0; f < 4; f++) {
+            static const size_t lens[] = { 0, 1, 17, 35, 36, 37, 70, 71, 72, 73, 100, 139 };
+            size_t L = lens[vh_below(&r, sizeof lens / sizeof lens[0])], i;
+            for (i = 0; i < L; i++) idn[f][i] = (char) ("ABCxyz019 ,;\"'-_./"[vh_below(&r, 19)]);
+            idn[f][L] = 0;
+            v->ctx->idn[f] = vh_below(&r, 6) == 0 ? NULL : idn[f];
+        }
+    }
     /* every callback but write is optional for the application */
     if (vh_below(&r, 4) == 0) {
         uint32_t m = vh_below(&r, 16);
